@@ -1,6 +1,114 @@
+import os
+import re
+import sys
+
 from orchestrate.common import run_check
 
 E2E_KINDS = ("P", "R", "X", "G")
+REPO = os.environ.get("VERIF_REPO", "/repo")
+
+# ---------------------------------------------------------------- census (structure pin)
+# Control-flow skeleton of the functions the interleaving semantics of Model/Streams.v was written
+# from (scylla/src/network/connection.rs): every jump, loop, `.await`, `?`, lock acquisition, map
+# operation, channel operation and match arm, in source order.  The model's atomicity assumption
+# ("each map access is one try_lock critical section without .await"), the order notifier-created <
+# task-sent < response-awaited < notifier-disabled, and the set of branches of reader / writer /
+# orphaner are read off this skeleton; a change here means the model may miss a branch: `diff census`.
+CONN_FILE = "scylla/src/network/connection.rs"
+CONN_TOKENS = re.compile(
+    r"\btry_lock\s*\(\s*\)\s*\.\s*unwrap\s*\(\s*\)|\.\s*await\b|\?|\breturn\b|\bbreak\b|\bcontinue\b|\bloop\b|"
+    r"\bwhile\s+let\b|\bwhile\b|\bfor\b|\bif\s+let\b|\bif\b|\belse\b|\bmatch\b|tokio::select!|futures::try_join!|"
+    r"OrphanhoodNotifier::new|notifier\s*\.\s*disable\s*\(\s*\)|\bsubmit_channel\s*\.\s*send\b|\breceiver\s*\.\s*await\b|"
+    r"allocate_request_id\s*\(\s*\)|alloc_stream_id\s*\(|"
+    r"\.\s*(?:allocate|lookup|orphan|old_orphans_count|into_handlers)\s*\(|response_sender\s*\.\s*send\s*\(|"
+    r"\.\s*set_stream\s*\(|\.\s*write_all\s*\(|\.\s*flush\s*\(|\btry_recv\s*\(\s*\)|"
+    r"\b(?:task_receiver|orphan_receiver|receiver)\s*\.\s*recv\s*\(\s*\)|receiver\s*\.\s*close\s*\(\s*\)|"
+    r"read_response_frame\s*\(|interval\s*\.\s*tick\s*\(\s*\)|cmp\s*\(\s*&-1\s*\)|handle_event\s*\(|=>|"
+    r"Handler\s*\(|Missing\b|Orphaned\b|drop\s*\(|self\.enabled|notification_sender\s*\.\s*send\s*\(")
+CONN_SKELETON = {
+    "fn send_request": ['?', 'allocate_request_id()', 'OrphanhoodNotifier::new', 'submit_channel.send', '.await', '?',
+                        'receiver.await', '?', 'notifier.disable()'],
+    "impl Drop for OrphanhoodNotifier": ['drop(', 'if', 'self.enabled', 'notification_sender.send('],
+    "fn router": ['futures::try_join!', 'match', '=>', 'return', '=>', '.into_handlers(', 'for', 'response_sender.send(',
+                  'receiver.close()', 'whilelet', 'receiver.recv()', '.await', 'response_sender.send('],
+    "fn reader": ['loop', 'read_response_frame(', '.await', '?', 'match', 'cmp(&-1)', '=>', 'continue', '=>', 'iflet',
+                  'handle_event(', '.await', '?', 'continue', '=>', 'try_lock().unwrap()', '.lookup(', 'match', 'Handler(',
+                  '=>', 'response_sender.send(', 'Missing', '=>', 'return', 'Orphaned', '=>'],
+    "fn alloc_stream_id": ['try_lock().unwrap()', 'match', '.allocate(', '=>', '=>', 'response_sender.send('],
+    "fn writer": ['whilelet', 'task_receiver.recv()', '.await', 'whilelet', 'alloc_stream_id(', '.set_stream(', '.write_all(',
+                  '.await', '?', 'match', 'try_recv()', '=>', '=>', 'match', '=>', '.await', 'match', 'try_recv()', '=>',
+                  '=>', 'break', '=>', '.await', 'match', 'try_recv()', '=>', '=>', 'break', '=>', 'break', '.flush(',
+                  '.await', '?'],
+    "fn orphaner": ['loop', 'tokio::select!', 'interval.tick()', '=>', 'try_lock().unwrap()', '.old_orphans_count(', 'if',
+                    'return', 'orphan_receiver.recv()', '=>', 'try_lock().unwrap()', '.orphan(', 'else', '=>', 'break'],
+}
+
+
+def _strip(src):
+    """remove comments and string literals (keeps the structure characters of code only)"""
+    out, i, n = [], 0, len(src)
+    while i < n:
+        if src.startswith("//", i):
+            j = src.find("\n", i)
+            i = n if j < 0 else j
+        elif src.startswith("/*", i):
+            j = src.find("*/", i + 2)
+            i = n if j < 0 else j + 2
+        elif src[i] == '"':
+            i += 1
+            while i < n and src[i] != '"':
+                i += 2 if src[i] == "\\" else 1
+            i += 1
+            out.append('""')
+        elif src[i] == "'" and i + 2 < n and (src[i + 2] == "'" or (src[i + 1] == "\\" and src.find("'", i + 2) in (i + 3, i + 4))):
+            j = src.find("'", i + 2)
+            i = j + 1
+            out.append("' '")
+        else:
+            out.append(src[i])
+            i += 1
+    return "".join(out)
+
+
+def _match_brace(s, i):
+    depth = 0
+    while i < len(s):
+        if s[i] == "{":
+            depth += 1
+        elif s[i] == "}":
+            depth -= 1
+            if depth == 0:
+                return i
+        i += 1
+    return len(s)
+
+
+def conn_skeleton():
+    s = _strip(open(os.path.join(REPO, CONN_FILE), errors="replace").read())
+    got = {}
+    for key in CONN_SKELETON:
+        if key.startswith("fn "):
+            m = re.search(r"\bfn\s+" + key[3:] + r"\b", s)
+        else:
+            m = re.search(re.sub(r"\s+", r"\\s+", key), s)
+        if not m:
+            got[key] = None
+            continue
+        b = s.find("{", m.end())
+        body = s[b:_match_brace(s, b) + 1]
+        got[key] = [re.sub(r"\s+", "", t) for t in CONN_TOKENS.findall(body)]
+    return got
+
+
+def census():
+    bad = []
+    got = conn_skeleton()
+    for key, want in CONN_SKELETON.items():
+        g = got.get(key)
+        if g != want:
+            bad.append(f"control-flow skeleton of `{key}` in {CONN_FILE} changed: pinned {want}, found {g}")
+    return bad
+
 
 
 def _events(ln):
@@ -28,15 +136,28 @@ def _extra(lines, verdicts):
     e2e = {"runs": 0, "requests_submitted": 0, "frames_received_by_mock": 0, "completed_with_own_answer": 0,
            "alloc_failures": 0, "dropped_never_written": 0, "dropped_before_write": 0, "dropped_after_write": 0,
            "dropped_after_response": 0, "max_outstanding_on_one_connection": 0, "exhaustion_runs_reaching_32768": 0,
-           "oversized_frames_on_the_wire": 0}
+           "oversized_frames_on_the_wire": 0, "not_run_env": 0, "exhaustion_runs_total": 0,
+           "exhaustion_runs_with_refusal_after_abandon_and_wait": 0}
     timed = {"cases": 0, "allocations_refused_after_real_wait": 0, "count_probes": 0}
     reader = {"cases": 0, "frames_returned": 0, "bodies_over_256MiB": 0}
     for ln in lines:
         case, _, out = ln.partition("|")
         k = case.split(" ", 1)[0]
         if k in E2E_KINDS:
+            if out.split()[:1] == ["setup-error"]:
+                e2e["not_run_env"] += 1
+                continue
             ev = _events(ln)
             e2e["runs"] += 1
+            if k == "X":
+                e2e["exhaustion_runs_total"] += 1
+                seen_c = False
+                for e in ev:
+                    if e[0] == "c" and not e.startswith("close"):
+                        seen_c = True
+                    elif seen_c and e.startswith("d") and e.endswith(".a"):
+                        e2e["exhaustion_runs_with_refusal_after_abandon_and_wait"] += 1
+                        break
             pos_in, pos_out = {}, {}
             outst, mx = set(), 0
             for i, e in enumerate(ev):
@@ -73,7 +194,7 @@ def _extra(lines, verdicts):
             e2e["max_outstanding_on_one_connection"] = max(e2e["max_outstanding_on_one_connection"], mx)
             if mx >= 32768:
                 e2e["exhaustion_runs_reaching_32768"] += 1
-            if k == "G":
+            if k == "G" and any(e.startswith("o") and e.endswith(".f4240") for e in ev):
                 e2e["oversized_frames_on_the_wire"] += 1
             continue
         if k == "O":
@@ -104,7 +225,52 @@ def _extra(lines, verdicts):
         if " F8000." in case:
             full += 1
     return {"operations_compared": ops, "full_32768_id_fills": full, "timed_state_machine": timed,
-            "end_to_end": e2e, "frame_reader": reader}
+            "end_to_end": e2e, "frame_reader": reader,
+            "census": {"functions_pinned": list(CONN_SKELETON), "tokens": sum(len(v) for v in CONN_SKELETON.values()),
+                       "mismatches": census()}}
+
+
+# what a run must really have exercised (non-replay runs): (quick, thorough)
+FLOORS = {
+    ("end_to_end", "runs"): (45, 550),
+    ("end_to_end", "completed_with_own_answer"): (50000, 400000),
+    ("end_to_end", "exhaustion_runs_reaching_32768"): (1, 8),
+    ("end_to_end", "exhaustion_runs_with_refusal_after_abandon_and_wait"): (1, 8),
+    ("end_to_end", "alloc_failures"): (2, 16),
+    ("end_to_end", "dropped_never_written"): (50, 1000),
+    ("end_to_end", "dropped_before_write"): (50, 1000),
+    ("end_to_end", "dropped_after_write"): (50, 1000),
+    ("end_to_end", "dropped_after_response"): (50, 1000),
+    ("end_to_end", "oversized_frames_on_the_wire"): (1, 4),
+    ("timed_state_machine", "allocations_refused_after_real_wait"): (4, 12),
+    ("timed_state_machine", "count_probes"): (4, 12),
+    ("frame_reader", "bodies_over_256MiB"): (1, 3),
+    ("frame_reader", "frames_returned"): (300, 3000),
+}
+NOT_RUN_CAP = (2, 10)
+
+
+def _tier():
+    t = os.environ.get("VERIF_TIER", "quick")
+    if "--tier" in sys.argv:
+        t = sys.argv[sys.argv.index("--tier") + 1]
+    return 1 if t == "thorough" else 0
+
+
+def post(lines, verdicts):
+    out = [("diff", "census " + b[:60], "diff census: " + b) for b in census()]
+    if "--replay" in sys.argv:
+        return out
+    cov = _extra(lines, verdicts)
+    ti = _tier()
+    for (grp, key), fl in FLOORS.items():
+        if cov[grp][key] < fl[ti]:
+            out.append(("diff", f"coverage {grp}.{key}", f"diff coverage-floor: {grp}.{key} = {cov[grp][key]} < {fl[ti]}: "
+                        "the run did not exercise what the evidence claims"))
+    nr = cov["end_to_end"]["not_run_env"]
+    if nr > NOT_RUN_CAP[ti]:
+        out.append(("diff", "coverage not_run_env", f"diff e2e tie not exercised: {nr} scenarios could not run (environment)"))
+    return out
 
 
 SPEC = {
@@ -112,6 +278,8 @@ SPEC = {
     "coq_targets": ["Props/C02.vo", "Extract/ExC02.vo"],
     "bin": "c02",
     "sizes": {"quick": 40000, "thorough": 1200000},
+    "min_cases": {"quick": 40300, "thorough": 1203000},
+    "post": post,
     "search_n": 300000,
     "rule": ("state machine (hook H1): one case = one operation sequence on the real ResponseHandlerMap, every return value and the "
              "final state compared exactly with the extracted model: E = all sequences of length <= 4 (quick) / <= 6 (thorough) over "
